@@ -921,6 +921,118 @@ def do_module_functions(repo, outdir):
     return rejects
 
 
+class VecTr:
+    """straight-line numpy array code: every variable is a number ('num') or an equally long vector ('vec')"""
+
+    def __init__(self, fn, q, types):
+        self.fn, self.q, self.env = fn, q, dict(types)
+
+    def rej(self, node, why):
+        raise Reject("%s: line %s: %s" % (self.q, getattr(node, "lineno", "?"), why))
+
+    def lift1(self, f, a):
+        t, ty = a
+        return ("(%s %s)" % (f, t), "num") if ty == "num" else ("(map (fun e_ => %s e_) %s)" % (f, t), "vec")
+
+    def lift2(self, f, a, b):
+        (ta, ya), (tb, yb) = a, b
+        if ya == "num" and yb == "num":
+            return "(%s %s %s)" % (f, ta, tb), "num"
+        if ya == "vec" and yb == "vec":
+            return "(vmap2 (%s) %s %s)" % (f, ta, tb), "vec"
+        if ya == "vec":
+            return "(map (fun e_ => %s e_ %s) %s)" % (f, tb, ta), "vec"
+        return "(map (fun e_ => %s %s e_) %s)" % (f, ta, tb), "vec"
+
+    def expr(self, e):
+        if isinstance(e, ast.Constant) and isinstance(e.value, (int, float)) and not isinstance(e.value, bool):
+            return ("(n_Z N (%d))" % e.value, "num") if isinstance(e.value, int) else (lit_float(e.value), "num")
+        if isinstance(e, ast.Name):
+            if e.id not in self.env:
+                self.rej(e, "unknown name %s" % e.id)
+            if self.env[e.id] == "idx":
+                self.rej(e, "index array used as a value")
+            return ident(e.id), self.env[e.id]
+        if isinstance(e, ast.UnaryOp) and isinstance(e.op, ast.USub):
+            return self.lift1("n_opp N", self.expr(e.operand))
+        if isinstance(e, ast.BinOp):
+            if isinstance(e.op, ast.Pow):
+                if isinstance(e.right, ast.Constant) and isinstance(e.right.value, int) and e.right.value >= 0:
+                    t, ty = self.expr(e.left)
+                    k = e.right.value
+                    return ("(n_powZ N %s (%d))" % (t, k), "num") if ty == "num" else ("(map (fun e_ => n_powZ N e_ (%d)) %s)" % (k, t), "vec")
+                return self.lift2("n_rpow N", self.expr(e.left), self.expr(e.right))
+            op = {ast.Add: "n_add N", ast.Sub: "n_sub N", ast.Mult: "n_mul N", ast.Div: "n_div N"}.get(type(e.op))
+            if op is None:
+                self.rej(e, "operator")
+            return self.lift2(op, self.expr(e.left), self.expr(e.right))
+        if isinstance(e, ast.Call):
+            f = ast.unparse(e.func)
+            un = {"np.log10": "n_log10 N", "np.log": "n_log N", "np.exp": "n_exp N", "np.sqrt": "n_sqrt N"}
+            if f in un and len(e.args) == 1 and not e.keywords:
+                return self.lift1(un[f], self.expr(e.args[0]))
+            if f == "np.sum" and len(e.args) == 1 and not e.keywords:
+                t, ty = self.expr(e.args[0])
+                if ty != "vec":
+                    self.rej(e, "np.sum of a number")
+                return "(vsum N %s)" % t, "num"
+            self.rej(e, "call of %s" % f)
+        if isinstance(e, ast.Subscript) and isinstance(e.value, ast.Name) and isinstance(e.slice, ast.Name) \
+                and self.env.get(e.slice.id) == "idx" and self.env.get(e.value.id) == "vec":
+            return "(vnonzero N %s %s)" % (ident(e.slice.id), ident(e.value.id)), "vec"
+        self.rej(e, "expression %s" % ast.unparse(e))
+
+    def translate(self):
+        body = strip_doc(self.fn)
+        lets = []
+        for st in body:
+            if isinstance(st, ast.Assign) and len(st.targets) == 1 and isinstance(st.targets[0], ast.Name):
+                nm = st.targets[0].id
+                v = st.value
+                if isinstance(v, ast.Call) and ast.unparse(v.func) == "np.nonzero" and len(v.args) == 1 and isinstance(v.args[0], ast.Name) \
+                        and self.env.get(v.args[0].id) == "vec":
+                    lets.append("let %s := %s in" % (ident(nm), ident(v.args[0].id)))   # the vector whose non-zero positions are meant
+                    self.env[nm] = "idx"
+                    continue
+                t, ty = self.expr(v)
+                lets.append("let %s := %s in" % (ident(nm), t))
+                self.env[nm] = ty
+            elif isinstance(st, ast.Return) and isinstance(st.value, ast.Tuple):
+                parts = [self.expr(x) for x in st.value.elts]
+                if any(ty != "num" for _, ty in parts):
+                    self.rej(st, "vector returned")
+                return "\n  ".join(lets) + "\n  (" + ", ".join(t for t, _ in parts) + ")"
+            elif isinstance(st, ast.Return):
+                t, ty = self.expr(st.value)
+                return "\n  ".join(lets) + "\n  " + t
+            else:
+                self.rej(st, "statement %s" % type(st).__name__)
+        self.rej(self.fn, "no return")
+
+
+def do_ew_lsq(repo, outdir):
+    """ExponentiatedWeibullDistribution._estimate_alpha_beta and _wlsq_error (numpy array code)"""
+    rejects = []
+    mod = ast.parse(open(os.path.join(repo, "virocon", "distributions.py")).read())
+    text = [HEADER % "virocon/distributions.py (array code of the exponentiated Weibull least-squares fit)"]
+    cls = [c for c in mod.body if isinstance(c, ast.ClassDef) and c.name == "ExponentiatedWeibullDistribution"]
+    fns = {f.name: f for f in cls[0].body if isinstance(f, ast.FunctionDef)} if cls else {}
+    fn = fns.get("_estimate_alpha_beta")
+    if fn is None:
+        rejects.append("distributions:ExponentiatedWeibullDistribution._estimate_alpha_beta: not found")
+    else:
+        try:
+            tr = VecTr(fn, "distributions:ExponentiatedWeibullDistribution._estimate_alpha_beta",
+                       {"delta": "num", "x": "vec", "p": "vec", "w": "vec"})
+            term = tr.translate()
+            text.append("Definition ew_estimate_alpha_beta (delta : T) (x p w : list T) : T * T :=\n  %s." % term)
+        except Reject as r:
+            rejects.append(str(r))
+    text.append("End Gen.")
+    write_if_changed(os.path.join(outdir, "EwLsqGen.v"), "\n".join(text) + "\n")
+    return rejects
+
+
 def do_contours(repo, outdir):
     """module-level algebra of contours.py: calculate_alpha"""
     rejects = []
@@ -949,7 +1061,7 @@ def main():
     repo, outdir = sys.argv[1], sys.argv[2]
     os.makedirs(outdir, exist_ok=True)
     rejects = []
-    for f in (do_distributions, do_module_functions, do_contours):
+    for f in (do_distributions, do_module_functions, do_contours, do_ew_lsq):
         try:
             rejects += f(repo, outdir)
         except SyntaxError as e:
